@@ -49,6 +49,22 @@ add("C08", "exploration",
     EX_NOTE + "A stream skipper asking for > 2 MiB on a < 64 KiB input counts as a rejection (counted separately).",
     "bounded-exhaustive input enumeration against an independent recursive-descent grammar", "E6", "5/C08")
 
+add("C01", "exploration",
+    "Whole-domain and bounded-exhaustive enumeration of codec values on every writer (in-place, appending onto nil / a prefix with spare capacity, stream writer over both bufiox writers) and every reader (Binary.Read*, stream reader over the bytes reader and over the io.Reader-backed reader under every fragmentation policy and per-Read deviations): all bool/i8/i16, all (type byte, field id) pairs, all container type bytes x sizes to 2^31-1, structured i32/i64/double bit patterns incl. NaN payloads, (thorough) all 2^32 i32, strings 0..65537 bytes, all sequences of <= 3 values over a 14-kind alphabet and long back-to-back runs crossing several buffer growths; oracle = independent big-endian encoder.",
+    EX_NOTE, "whole-domain / bounded-exhaustive enumeration against a reference encoder, environment answers enumerated (deviation-bounded)", "E1+E6", "5/C01")
+add("C11", "exploration",
+    "Exhaustive product on the write side (field values x map shapes x nil receiver: BLength == FastWrite == FastWriteNocopy(nil) == FastMarshal, bytes parsed back order-insensitively) and, on the read side, inputs built by the reference encoder: every ordered selection of the known fields x unknown fields of every generated type at every gap (ids 100, -1, ids colliding with known ids under other types, ids agreeing with a known id in the low byte), two unknown fields at all gap pairs, trailing bytes.",
+    EX_NOTE, "bounded-exhaustive enumeration of struct encodings (permutations x insertion points x value generator) against a reference encoder/decoder", "E6", "5/C11")
+add("C12", "exploration",
+    "All 65536 message types, name lengths 0..65536 with arbitrary bytes, sequence-id alphabet, 3 writers x 2 readers under every fragmentation policy; strict-version check swept over the first word (quick: all upper halves x 3 + all lower halves; thorough: all 2^32 values) on both readers; every strict prefix rejected; MarshalFastMsg/UnmarshalFastMsg product incl. EXCEPTION messages (also with unknown fields) with input-buffer reuse after decoding.",
+    EX_NOTE, "whole-domain sweeps and bounded-exhaustive products against a reference encoder", "E6", "5/C12")
+add("C13", "exploration",
+    "Both directions (bytes -> tree -> bytes, tree -> bytes -> tree) on every generated value tree, all sequences of <= 3 top-level fields, all 121 ordered pairs and 1331 triples of field types inside nested structs (also inside lists and as map values), empty containers of all 121 key/value type pairs and members of different encoded sizes; the tree is compared field by field incl. Go types and the rule that KeyType/ValType are set only where meaningful.",
+    EX_NOTE, "bounded-exhaustive enumeration of typed field trees against a reference encoder", "E6", "5/C13")
+add("C17", "fault_enumeration",
+    "In-memory: every failing call of the Binary readers/ReadMessageBegin/Skip met on all grammar-alphabet strings, all version halves, prefixes/perturbations and deep chains is classified by an independent reference into truncated / unknown type / negative size / bad version / depth and the protocol-exception type id must be admissible. Stream: every BufferReader method on streams cut at EVERY byte position x 4 terminal error values (incl. a wrapped sentinel) x end style x chunk policy: the failure must match the source's error under errors.Is; pooled readers are deliberately reused across cases so stale state would show.",
+    EX_NOTE, "exhaustive fault enumeration (every cut position x every injected error value) plus bounded-exhaustive malformed-input enumeration with an independent cause classifier", "E6+E1", "5/C17")
+
 NOT_YET = {}
 
 def main():
